@@ -3,7 +3,7 @@
    (Model/NFAOps.v, Proofs/NFAOps.v) because the quotient constructions of C08 are built on it. *)
 From Coq Require Import List Arith Bool.
 From AV Require Import Base.Util Spec.Lang Spec.FA Model.Decide Model.Product Model.Build Model.Subset
-     Model.NFAOps Proofs.Decide Proofs.Subset Proofs.NFAOps.
+     Model.NFAOps Proofs.Decide Proofs.Subset Proofs.NFAOps Proofs.ElimReach.
 Import ListNotations.
 
 (* whenever the subset construction returns (always, for NFAs of up to 14 states - beyond that the
@@ -26,17 +26,40 @@ Theorem C07_from_dfa : forall d, valid_dfa d = true ->
 Proof. intros d Hv. split; [exact (from_dfa_valid d Hv)|exact (from_dfa_lang d)]. Qed.
 Print Assumptions C07_from_dfa.
 
-(* eliminate_lambda: total on valid NFAs, the result is valid, has exactly the same language and no
-   empty-string transition left (that every state of the result is reachable is checked on the
-   implementation's result by the extracted all_reachable on every run; it is not part of this theorem) *)
+(* eliminate_lambda: total on valid NFAs, the result is valid, has exactly the same language, no
+   empty-string transition left, and no state unreachable from its initial state (every state of the
+   result is the end of a path from the initial state: the model's reachability pruning keeps exactly
+   such states) *)
 Theorem C07_eliminate_lambda : forall A, valid_nfa A = true ->
   exists R, nfa_eliminate_lambda A = Ok R /\ valid_nfa R = true /\ L_nfa R =L L_nfa A /\
-            (forall p q, ~ n_edge R p None q).
+            (forall p q, ~ n_edge R p None q) /\
+            (forall q, In q (n_states R) -> exists w, nfa_path R (n_init R) w q).
 Proof.
   intros A HA. destruct (ops_elim_total A HA) as [R [E V]].
-  exists R. split; [exact E|]. split; [exact V|]. apply (ops_elim_lang A HA R E).
+  exists R. split; [exact E|]. split; [exact V|].
+  destruct (ops_elim_lang A HA R E) as [HL HN]. split; [exact HL|]. split; [exact HN|].
+  exact (ops_elim_reachable A R HA E).
 Qed.
 Print Assumptions C07_eliminate_lambda.
+
+(* the two flags the harness computes (extracted) on the IMPLEMENTATION's result mean what they say:
+   has_eps_key m = false iff no transition row of m has the empty string as a key;
+   all_reachable m = Ok true iff every state of m is graph-reachable from the initial state
+   (graph_reach = reflexive-transitive closure of "is listed as a target in the row of");
+   graph reachability contains word reachability, and equals it when no row lists a key twice
+   (a Python dict never does) *)
+Theorem C07_flags_exact : forall m,
+  (has_eps_key m = false <->
+     forall q row a l, In (q, row) (n_trans m) -> In (a, l) row -> a <> None) /\
+  (valid_nfa m = true ->
+     (all_reachable m = Ok true <-> forall q, In q (n_states m) -> graph_reach m q)) /\
+  (forall q w, nfa_path m (n_init m) w q -> graph_reach m q) /\
+  (row_keys_unique m -> forall q, graph_reach m q -> exists w, nfa_path m (n_init m) w q).
+Proof.
+  intro m. split; [apply has_eps_key_false|]. split; [apply all_reachable_true|].
+  split; [intros q w; apply path_graph_reach|intros Hu q; apply graph_reach_path; exact Hu].
+Qed.
+Print Assumptions C07_flags_exact.
 
 (* the comparators used to judge the implementation's results are exact *)
 Theorem C07_comparators_exact :
@@ -56,4 +79,15 @@ Example C07_example :
   valid_nfa n = true /\
   match determinize_m n with Ok R => (valid_dfa R, map (dfa_acc R) [[1]; [0;0;1]; [1;1]; []]) | Err _ => (false, []) end
     = (true, [true; true; false; false]).
+Proof. vm_compute. repeat split. Qed.
+
+(* the flags on an automaton with an empty-string key and an unreachable state, and on the model's
+   result for it *)
+Example C07_example_flags :
+  let n := mknfa [0;1;2] [0] [(0,[(Some 0,[1]);(None,[1])]);(2,[(None,[0])])] 0 [1] in
+  valid_nfa n = true /\ has_eps_key n = true /\ all_reachable n = Ok false /\
+  match nfa_eliminate_lambda n with
+  | Ok R => (has_eps_key R, all_reachable R, length (n_states R))
+  | Err _ => (true, Err Fuel, 0)
+  end = (false, Ok true, 2).
 Proof. vm_compute. repeat split. Qed.
